@@ -181,6 +181,17 @@ REFS = [
     (FAM_CTXT, "no-node-globals", "global", "v9 = @;", None),
     (FAM_CTXT, "no-node-globals", "setImmediate", "@(f9);", None),
     (FAM_CTXT, "no-node-globals", "clearImmediate", "v9 = [@];", None),
+    # the local side of an export specifier without alias (module level only)
+    (FAM_CTXT, "no-process-global", "process", "export { @ };", "top"),
+    (FAM_CTXT, "no-node-globals", "Buffer", "export { @, setImmediate };", "top"),
+    (FAM_CTXT, "no-node-globals", "global", "export { x9 as y9, @ };", "top"),
+    # the reference spelled with a Unicode escape
+    (FAM_CTXT, "no-process-global", "process", "@E.env;", None),
+    (FAM_CTXT, "no-node-globals", "Buffer", "@E.from('a');", None),
+    (FAM_CTXT, "no-node-globals", "global", "v9 = @E;", None),
+    (FAM_VAR, "no-window", "window", "@E.p9;", None),
+    (FAM_VAR, "no-console", "console", "@E.log(1);", None),
+    (FAM_GA, "no-global-assign", "Array", "@E = 1;", None),
     (FAM_GA, "no-global-assign", "Array", "@ = 1;", None),
     (FAM_GA, "no-global-assign", "String", "@++;", None),
     (FAM_GA, "no-global-assign", "Object", "({ @ } = o9);", None),
@@ -416,7 +427,9 @@ def build(ref, form, outer, inner, k=0):
     """-> dict(src, media, ref_off, term, name) for one case."""
     fam, rule, name, tpl, rmedia = ref
     marker = "\u0001"
-    body = tpl.replace("@", marker + name)
+    # "@E": the reference is written with a Unicode escape (`\u{70}rocess`); the identifier NAME is the same
+    spelled = name if "@E" not in tpl else ("\\u{%x}" % ord(name[0])) + name[1:]
+    body = tpl.replace("@E", "@").replace("@", marker + spelled)
     term = ref_term(tpl, name)
     for w in reversed(inner):
         body = WRAP_BY_NAME[w][1](body)
@@ -452,8 +465,17 @@ def generate(seed, tier):
     k = 0
     for ref in REFS:
         for form in FORMS:
-            if ref[4] == "ts" and form["media"] is None and form["module"] is False:
-                pass
+            if ref[4] == "top":
+                # a module-level-only reference position (export specifier): only binding forms that leave the body at the top level
+                probe = form["text"]("N9", "\u0002")
+                pre = probe[:probe.index("\u0002")]
+                if pre.count("{") != pre.count("}") or pre.count("(") != pre.count(")") or form["media"] == "ts":
+                    continue
+                c = build((ref[0], ref[1], ref[2], ref[3], None), form, [], [], k)
+                c["media"] = "ts" if k % 2 else "js"
+                cases.append(c)
+                k += 1
+                continue
             # every form gets all depth-0/1 chains for one reference per rule, and a sample of the chains otherwise
             for ci, ch in enumerate(chains):
                 first_of_rule = ref is next(r for r in REFS if r[1] == ref[1])
